@@ -161,6 +161,21 @@ pub struct RegularNode {
     pub closing_parenthesis_span: std::ops::Range<usize>,
 }
 
+impl Drop for RegularNode {
+    /// Nodes can be nested arbitrarily deeply (the input decides), so the descendants are
+    /// dropped iteratively: the default recursive drop overflows the stack for deep trees.
+    fn drop(&mut self) {
+        let mut pending: Vec<Node> = self.children.take().unwrap_or_default();
+        while let Some(node) = pending.pop() {
+            if let Node::Regular(mut regular_node) = node {
+                if let Some(children) = regular_node.children.take() {
+                    pending.extend(children);
+                }
+            }
+        }
+    }
+}
+
 fn parse(s: &str) -> (Cst, Vec<ParseWarning>) {
     let mut warnings = vec![];
     let mut cst = Cst(vec![]);
